@@ -16,7 +16,15 @@ def mk_witness(wit):
 
 def mk_tx(m, mutable=False, wit_mode='auto'):
     """library transaction from a reference model. wit None -> constructor default."""
-    if mutable:
+    if mutable == 'mixed':
+        # a mutable transaction whose lists hold objects of BOTH families (what a caller gets who appends parsed, immutable
+        # inputs to a transaction under construction): immutable input / mutable input / mutable input around an immutable outpoint
+        vin = [(CTxIn(COutPoint(h, n), CScript(sc), seq) if k % 3 == 0 else
+                CMutableTxIn(CMutableOutPoint(h, n) if k % 3 == 1 else COutPoint(h, n), CScript(sc), seq))
+               for k, (h, n, sc, seq) in enumerate(m['vin'])]
+        vout = [(CTxOut if k % 2 else CMutableTxOut)(v, CScript(sc)) for k, (v, sc) in enumerate(m['vout'])]
+        cls = CMutableTransaction
+    elif mutable:
         vin = [CMutableTxIn(CMutableOutPoint(h, n), CScript(sc), seq) for h, n, sc, seq in m['vin']]
         vout = [CMutableTxOut(v, CScript(sc)) for v, sc in m['vout']]
         cls = CMutableTransaction
